@@ -125,7 +125,12 @@ class Engine:
 
     def oblige(self, kind, claim, oid=None, pos="", narrow=True):
         """record obligation 'under the current guard, claim holds'"""
+        if not is_true(claim) and not is_false(claim):
+            claim = z3.simplify(claim)
         if is_true(claim):
+            self.stats["folded"] = self.stats.get("folded", 0) + 1
+            if kind == "assert":
+                self.stats.setdefault("folded_asserts", []).append(oid)
             return
         g = self.guard
         if is_false(g):
